@@ -535,7 +535,8 @@ class Sectionable(BaseObject):
             else:
                 found = self._match_iterable(self.sections, pathlist[0])
 
-            if found:
+            # An empty Section is falsy, but still a valid step of a path.
+            if found is not None:
                 return found._get_section_by_path("/".join(pathlist[1:]))
 
             raise ValueError("Section named '%s' does not exist" % pathlist[0])
